@@ -26,6 +26,267 @@ pub mod vx_ids {
 
 /*@include units/ids_common/spec.rs @*/
 
+    // ------------------------------------------------------------------------------------------
+    // generic sequence lemmas: gap, sub-sequence, concatenation, splice
+    // ------------------------------------------------------------------------------------------
+    pub open spec fn umin(a: u32, b: u32) -> u32 { if a < b { a } else { b } }
+
+    pub open spec fn umax(a: u32, b: u32) -> u32 { if a < b { b } else { a } }
+
+    /// a clock in the gap in front of entry `k` (after entry `k - 1`) is not covered
+    pub proof fn lemma_gap<T>(s: Seq<Ent<T>>, k: int, c: int)
+        requires
+            sorted(s),
+            nonempty(s),
+            0 <= k <= s.len(),
+            k > 0 ==> s[k - 1].0.end <= c,
+            k < s.len() ==> c < s[k].0.start,
+        ensures
+            !covers(s, c),
+    {
+        if covers(s, c) {
+            let j = idx_of(s, c);
+            assert(inr(s[j].0, c));
+            if j < k - 1 {
+                assert(s[j].0.end <= s[k - 1].0.start);
+                assert(s[k - 1].0.start < s[k - 1].0.end);
+            } else if j > k {
+                assert(s[k].0.end <= s[j].0.start);
+                assert(s[k].0.start < s[k].0.end);
+            }
+        }
+    }
+
+    /// every covered clock lies between the first start and the last end
+    pub proof fn lemma_bounds<T>(s: Seq<Ent<T>>, c: int)
+        requires
+            sorted(s),
+            nonempty(s),
+            covers(s, c),
+        ensures
+            s.len() > 0,
+            s[0].0.start <= c < s.last().0.end,
+    {
+        let j = idx_of(s, c);
+        assert(inr(s[j].0, c));
+        let n = s.len() - 1;
+        if 0 < j {
+            assert(s[0].0.end <= s[j].0.start);
+            assert(s[0].0.start < s[0].0.end);
+        }
+        if j < n {
+            assert(s[j].0.end <= s[n].0.start);
+            assert(s[n].0.start < s[n].0.end);
+        }
+    }
+
+    /// a contiguous piece of a canonical sequence
+    pub proof fn lemma_sub<T: Merge>(s: Seq<Ent<T>>, a: int, b: int)
+        requires
+            canon(s),
+            0 <= a <= b <= s.len(),
+        ensures
+            canon(s.subrange(a, b)),
+            forall|c: int| #[trigger] covers(s.subrange(a, b), c) ==> covers(s, c) && val_at(s.subrange(a, b), c) == val_at(s, c),
+            forall|c: int, k: int| a <= k < b && #[trigger] inr(s[k].0, c) ==> covers(s.subrange(a, b), c),
+    {
+        let t = s.subrange(a, b);
+        assert forall|i: int| 0 <= i < t.len() implies (#[trigger] t[i]).0.start < t[i].0.end by {
+            assert(t[i] == s[i + a]);
+        }
+        assert forall|i: int, j: int| 0 <= i < j < t.len() implies (#[trigger] t[i]).0.end <= (#[trigger] t[j]).0.start by {
+            assert(t[i] == s[i + a] && t[j] == s[j + a]);
+            assert(s[i + a].0.end <= s[j + a].0.start);
+        }
+        assert forall|i: int| 0 <= i < t.len() implies (#[trigger] t[i]).1.wf() by {
+            assert(t[i] == s[i + a]);
+        }
+        assert forall|i: int, j: int| 0 <= i && j == i + 1 && j < t.len() && (#[trigger] t[i]).0.end == (#[trigger] t[j]).0.start implies !t[i].1.eq_spec(&t[j].1) by {
+            assert(t[i] == s[i + a] && t[j] == s[j + a]);
+            assert(s[i + a].0.end == s[j + a].0.start);
+        }
+        assert forall|c: int| #[trigger] covers(t, c) implies covers(s, c) && val_at(t, c) == val_at(s, c) by {
+            let i = idx_of(t, c);
+            assert(inr(t[i].0, c));
+            assert(t[i] == s[i + a]);
+            assert(inr(s[i + a].0, c));
+            lemma_idx_unique(s, i + a, c);
+            lemma_idx_unique(t, i, c);
+        }
+        assert forall|c: int, k: int| a <= k < b && #[trigger] inr(s[k].0, c) implies covers(t, c) by {
+            assert(t[k - a] == s[k]);
+            assert(inr(t[k - a].0, c));
+        }
+    }
+
+    /// concatenation of two canonical sequences, the first entirely in front of the second
+    pub proof fn lemma_concat<T: Merge>(a: Seq<Ent<T>>, b: Seq<Ent<T>>)
+        requires
+            canon(a),
+            canon(b),
+            a.len() > 0 && b.len() > 0 ==> a.last().0.end <= b[0].0.start,
+            a.len() > 0 && b.len() > 0 && a.last().0.end == b[0].0.start ==> !a.last().1.eq_spec(&b[0].1),
+        ensures
+            canon(a + b),
+            forall|c: int| #[trigger] covers(a + b, c) <==> covers(a, c) || covers(b, c),
+            forall|c: int| covers(a, c) ==> #[trigger] val_at(a + b, c) == val_at(a, c),
+            forall|c: int| covers(b, c) ==> #[trigger] val_at(a + b, c) == val_at(b, c),
+    {
+        let t = a + b;
+        let n = a.len() as int;
+        assert forall|i: int| 0 <= i < t.len() implies (#[trigger] t[i]).0.start < t[i].0.end && t[i].1.wf() by {
+            if i < n { assert(t[i] == a[i]); } else { assert(t[i] == b[i - n]); }
+        }
+        assert forall|i: int, j: int| 0 <= i < j < t.len() implies (#[trigger] t[i]).0.end <= (#[trigger] t[j]).0.start by {
+            if j < n {
+                assert(t[i] == a[i] && t[j] == a[j]);
+            } else if i >= n {
+                assert(t[i] == b[i - n] && t[j] == b[j - n]);
+            } else {
+                assert(t[i] == a[i] && t[j] == b[j - n]);
+                if i < n - 1 {
+                    assert(a[i].0.end <= a[n - 1].0.start);
+                    assert(a[n - 1].0.start < a[n - 1].0.end);
+                }
+                if j - n > 0 {
+                    assert(b[0].0.end <= b[j - n].0.start);
+                    assert(b[0].0.start < b[0].0.end);
+                }
+            }
+        }
+        assert forall|i: int, j: int| 0 <= i && j == i + 1 && j < t.len() && (#[trigger] t[i]).0.end == (#[trigger] t[j]).0.start implies !t[i].1.eq_spec(&t[j].1) by {
+            if j < n {
+                assert(t[i] == a[i] && t[j] == a[j]);
+            } else if i >= n {
+                assert(t[i] == b[i - n] && t[j] == b[j - n]);
+            } else {
+                assert(t[i] == a[n - 1] && t[j] == b[0]);
+            }
+        }
+        assert forall|c: int| #[trigger] covers(t, c) <==> covers(a, c) || covers(b, c) by {
+            if covers(t, c) {
+                let i = idx_of(t, c);
+                assert(inr(t[i].0, c));
+                if i < n { assert(inr(a[i].0, c)); } else { assert(inr(b[i - n].0, c)); }
+            }
+            if covers(a, c) {
+                let i = idx_of(a, c);
+                assert(inr(a[i].0, c));
+                assert(t[i] == a[i]);
+                assert(inr(t[i].0, c));
+            }
+            if covers(b, c) {
+                let i = idx_of(b, c);
+                assert(inr(b[i].0, c));
+                assert(t[i + n] == b[i]);
+                assert(inr(t[i + n].0, c));
+            }
+        }
+        assert forall|c: int| covers(a, c) implies #[trigger] val_at(t, c) == val_at(a, c) by {
+            let i = idx_of(a, c);
+            assert(inr(a[i].0, c));
+            assert(t[i] == a[i]);
+            lemma_idx_unique(t, i, c);
+        }
+        assert forall|c: int| covers(b, c) implies #[trigger] val_at(t, c) == val_at(b, c) by {
+            let i = idx_of(b, c);
+            assert(inr(b[i].0, c));
+            assert(t[i + n] == b[i]);
+            lemma_idx_unique(t, i + n, c);
+        }
+    }
+
+    /// entries `[lo, hi)` of `o` replaced by `r`
+    pub open spec fn splice<T>(o: Seq<Ent<T>>, lo: int, hi: int, r: Seq<Ent<T>>) -> Seq<Ent<T>> {
+        o.subrange(0, lo) + r + o.subrange(hi, o.len() as int)
+    }
+
+    /// Splice lemma: `r` is canonical, lives inside the window `[wa, wb)`, the entries before `lo` end at or
+    /// before `wa`, the entries from `hi` on start at or after `wb`, the replaced entries lie inside the window,
+    /// and the two seams are not coalescable.
+    pub proof fn lemma_splice<T: Merge>(o: Seq<Ent<T>>, lo: int, hi: int, r: Seq<Ent<T>>, wa: int, wb: int)
+        requires
+            canon(o),
+            canon(r),
+            0 <= lo <= hi <= o.len(),
+            r.len() > 0,
+            forall|c: int| #[trigger] covers(r, c) ==> wa <= c < wb,
+            lo > 0 ==> o[lo - 1].0.end <= wa,
+            hi < o.len() ==> wb <= o[hi].0.start,
+            lo < hi ==> wa <= o[lo].0.start && o[hi - 1].0.end <= wb,
+            lo > 0 && o[lo - 1].0.end == r[0].0.start ==> !o[lo - 1].1.eq_spec(&r[0].1),
+            hi < o.len() && r.last().0.end == o[hi].0.start ==> !r.last().1.eq_spec(&o[hi].1),
+        ensures
+            canon(splice(o, lo, hi, r)),
+            forall|c: int| #[trigger] covers(splice(o, lo, hi, r), c) <==> covers(r, c) || (covers(o, c) && !(wa <= c < wb)),
+            forall|c: int| covers(r, c) ==> #[trigger] val_at(splice(o, lo, hi, r), c) == val_at(r, c),
+            forall|c: int| covers(o, c) && !(wa <= c < wb) ==> #[trigger] val_at(splice(o, lo, hi, r), c) == val_at(o, c),
+    {
+        let n = o.len() as int;
+        let pre = o.subrange(0, lo);
+        let suf = o.subrange(hi, n);
+        let res = splice(o, lo, hi, r);
+        lemma_sub(o, 0, lo);
+        lemma_sub(o, hi, n);
+        // r's own extent lies inside the window
+        assert(inr(r[0].0, r[0].0.start as int));
+        assert(covers(r, r[0].0.start as int));
+        assert(inr(r.last().0, r.last().0.end as int - 1));
+        assert(covers(r, r.last().0.end as int - 1));
+        assert(wa <= r[0].0.start && r.last().0.end <= wb && wa < wb);
+        if lo > 0 {
+            assert(pre.last() == o[lo - 1]);
+        }
+        lemma_concat(pre, r);
+        let pr = pre + r;
+        assert(pr.last() == r.last());
+        if hi < n {
+            assert(suf[0] == o[hi]);
+        }
+        lemma_concat(pr, suf);
+        assert(res == pr + suf);
+        // which clocks of `o` survive in pre / suf
+        assert forall|c: int| covers(pre, c) implies c < wa by {
+            lemma_bounds(pre, c);
+        }
+        assert forall|c: int| covers(suf, c) implies wb <= c by {
+            lemma_bounds(suf, c);
+        }
+        assert forall|c: int| covers(o, c) && !(wa <= c < wb) implies covers(pre, c) || covers(suf, c) by {
+            let k = idx_of(o, c);
+            assert(inr(o[k].0, c));
+            if lo <= k < hi {
+                if lo < k { assert(o[lo].0.end <= o[k].0.start); assert(o[lo].0.start < o[lo].0.end); }
+                if k < hi - 1 { assert(o[k].0.end <= o[hi - 1].0.start); assert(o[hi - 1].0.start < o[hi - 1].0.end); }
+                assert(false);
+            }
+        }
+        assert forall|c: int| #[trigger] covers(res, c) <==> covers(r, c) || (covers(o, c) && !(wa <= c < wb)) by {
+            assert(covers(pr, c) <==> covers(pre, c) || covers(r, c));
+        }
+        assert forall|c: int| covers(r, c) implies #[trigger] val_at(res, c) == val_at(r, c) by {
+            assert(covers(pr, c));
+            assert(val_at(pr, c) == val_at(r, c));
+        }
+        assert forall|c: int| covers(o, c) && !(wa <= c < wb) implies #[trigger] val_at(res, c) == val_at(o, c) by {
+            if covers(pre, c) {
+                assert(covers(pr, c));
+                assert(val_at(pr, c) == val_at(pre, c));
+            } else {
+                assert(covers(suf, c));
+            }
+        }
+    }
+
+    /// the contract of `insert_with` as a predicate on (old view, new view)
+    pub open spec fn ins_post<T: Merge>(o: Seq<Ent<T>>, range: Range<u32>, value: T, res: Seq<Ent<T>>) -> bool {
+        &&& canon(res)
+        &&& forall|c: int| covers(res, c) <==> covers(o, c) || inr(range, c)
+        &&& forall|c: int| covers(o, c) && !inr(range, c) ==> #[trigger] val_at(res, c).eq_spec(&val_at(o, c))
+        &&& forall|c: int| !covers(o, c) && inr(range, c) ==> #[trigger] val_at(res, c).eq_spec(&value)
+        &&& forall|c: int| covers(o, c) && inr(range, c) ==> #[trigger] val_at(res, c).eq_spec(&val_at(o, c).merge_spec(&value))
+    }
+
     impl<T: Merge> IdRanges<T> {
         /*@extract yrs/src/ids.rs | impl<T: Merge> IdRanges<T> | fn insert_with
         @sig
